@@ -59,11 +59,11 @@ type Injected struct {
 
 // Block is the concrete input of one block plus the per-engine schedule markers.
 type Block struct {
-	Proposer HexB    `json:"proposer,omitempty"`
-	Votes    []Vote  `json:"votes,omitempty"`
-	Evidence []Evid  `json:"evidence,omitempty"`
-	Txs      []HexB2 `json:"-"`
-	TxsHex   []HexB  `json:"txs,omitempty"`
+	Proposer HexB     `json:"proposer,omitempty"`
+	Votes    []Vote   `json:"votes,omitempty"`
+	Evidence []Evid   `json:"evidence,omitempty"`
+	Txs      []HexB2  `json:"-"`
+	TxsHex   []HexB   `json:"txs,omitempty"`
 	Notes    []string `json:"notes,omitempty"` // human-readable description of each tx (abstract op)
 
 	RestartAfter bool       `json:"restart_after,omitempty"`
@@ -91,12 +91,12 @@ func (h *HexB) UnmarshalJSON(b []byte) error {
 
 // History is the replay-file format: everything needed to re-execute a case without rapid.
 type History struct {
-	Property string   `json:"property"`
-	Seed     string   `json:"seed,omitempty"`
-	Genesis  *Genesis `json:"genesis"`
-	Blocks   []*Block `json:"blocks"`
+	Property string                     `json:"property"`
+	Seed     string                     `json:"seed,omitempty"`
+	Genesis  *Genesis                   `json:"genesis"`
+	Blocks   []*Block                   `json:"blocks"`
 	Extra    map[string]json.RawMessage `json:"extra,omitempty"`
-	Failure  string   `json:"failure,omitempty"`
+	Failure  string                     `json:"failure,omitempty"`
 }
 
 func (h *History) size() int {
